@@ -2,11 +2,12 @@
 package c13
 
 import (
-	"crypto/rand"
 	"bytes"
+	"crypto/rand"
 	"crypto/x509"
 	"encoding/binary"
 	"fmt"
+	"net"
 	"os"
 	"path/filepath"
 	"strings"
@@ -46,20 +47,23 @@ type COp struct {
 	ExtName  string `json:",omitempty"`
 	ExtData  []byte `json:",omitempty"`
 	// scripted result of the served agent
-	Err      string   `json:",omitempty"`
-	HasErr   bool     `json:",omitempty"`
+	Err    string `json:",omitempty"`
+	HasErr bool   `json:",omitempty"`
 	// ErrWithResult: the served agent's failing call returns its result value together with the error
-	ErrWithResult bool `json:",omitempty"`
-	ResKeys  []ResKey `json:",omitempty"`
-	SigFmt   string   `json:",omitempty"`
-	SigLen   int      `json:",omitempty"`
-	Slots    []string `json:",omitempty"`
-	CertIdx  int      `json:",omitempty"`
-	ReplyLen int      `json:",omitempty"`
+	ErrWithResult bool     `json:",omitempty"`
+	ResKeys       []ResKey `json:",omitempty"`
+	SigFmt        string   `json:",omitempty"`
+	SigLen        int      `json:",omitempty"`
+	Slots         []string `json:",omitempty"`
+	CertIdx       int      `json:",omitempty"`
+	ReplyLen      int      `json:",omitempty"`
 }
 
 type SeqCase struct {
 	Ops []COp
+	// ByAddress: the client is built by NewClient(address) against a unix-socket listener (otherwise
+	// NewClientFromConn over a socket pair)
+	ByAddress bool
 }
 
 func fill(n, seed int) []byte {
@@ -214,7 +218,7 @@ func genOp(t *rapid.T, label string) COp {
 
 func genSeq(t *rapid.T) SeqCase {
 	n := rapid.IntRange(1, 10).Draw(t, "nops")
-	c := SeqCase{}
+	c := SeqCase{ByAddress: rapid.IntRange(0, 3).Draw(t, "byAddress") == 1}
 	for i := 0; i < n; i++ {
 		o := genOp(t, fmt.Sprintf("op%d", i))
 		c.Ops = append(c.Ops, o)
@@ -253,28 +257,64 @@ func execSeq(c SeqCase) (vh.Outcome, error) {
 	out.NonTrivial = ext >= 1 && errs >= 1
 
 	rec := vh.NewRecAgent(vh.Script{})
-	c1, c2, serr := vh.SocketPair()
-	if serr != nil {
-		return out, nil // infrastructure
-	}
 	done := make(chan error, 1)
-	go func() {
+	serve := func(conn net.Conn) {
 		var err error
-		if perr := vh.Catch(func() { err = yubiagent.ServeAgent(rec, c2) }); perr != nil {
+		if perr := vh.Catch(func() { err = yubiagent.ServeAgent(rec, conn) }); perr != nil {
 			err = fmt.Errorf("SERVER-CRASH: %v", perr)
 		}
-		c2.Close()
+		conn.Close()
 		done <- err
-	}()
-	cl, err := yubiagent.NewClientFromConn(c1)
-	if err != nil {
-		return out, vh.Errf("NewClientFromConn: %v", err)
 	}
+	var cl yubiagent.YubiAgent
+	var closeClient func()
+	if c.ByAddress {
+		out.Classes = append(out.Classes, "client-by-address")
+		dir, derr := os.MkdirTemp("", "vc13")
+		if derr != nil {
+			return out, nil
+		}
+		defer os.RemoveAll(dir)
+		addr := filepath.Join(dir, "agent.sock")
+		ln, lerr := net.Listen("unix", addr)
+		if lerr != nil {
+			return out, nil
+		}
+		defer ln.Close()
+		go func() {
+			conn, aerr := ln.Accept()
+			if aerr != nil {
+				done <- nil
+				return
+			}
+			serve(conn)
+		}()
+		var err error
+		if cl, err = yubiagent.NewClient(addr); err != nil {
+			return out, vh.Errf("NewClient(%q): %v", addr, err)
+		}
+		// closing the client is what ends the connection
+		closeClient = func() { _ = cl.Close() }
+	} else {
+		c1, c2, serr := vh.SocketPair()
+		if serr != nil {
+			return out, nil // infrastructure
+		}
+		go serve(c2)
+		var err error
+		if cl, err = yubiagent.NewClientFromConn(c1); err != nil {
+			return out, vh.Errf("NewClientFromConn: %v", err)
+		}
+		closeClient = func() { c1.Close() }
+	}
+	served := false
 	defer func() {
-		c1.Close()
-		select {
-		case <-done:
-		case <-time.After(5 * time.Second):
+		if !served {
+			closeClient()
+			select {
+			case <-done:
+			case <-time.After(5 * time.Second):
+			}
 		}
 	}()
 
@@ -587,6 +627,17 @@ func execSeq(c SeqCase) (vh.Outcome, error) {
 			return out, vh.Errf("%s: %v", where, cerr)
 		}
 	}
+	// closing the client ends the connection: the server sees a clean end of stream
+	served = true
+	closeClient()
+	select {
+	case serr := <-done:
+		if serr != nil && strings.HasPrefix(serr.Error(), "SERVER-CRASH") {
+			return out, vh.Errf("%v", serr)
+		}
+	case <-time.After(10 * time.Second):
+		return out, vh.Errf("the server kept serving for 10 s after the client was closed (Close does not close the connection?)")
+	}
 	return out, nil
 }
 
@@ -610,7 +661,7 @@ func parseSmartcard(raw []byte) (id string, pin, rest []byte, ok bool) {
 	return id, b[4 : 4+l], b[4+l:], true
 }
 
-const ruleSeq = "sequences of 1..10 operations through NewClientFromConn <-> ServeAgent(recording agent) over a unix socket pair: list, sign-with-flags (flags 0/2/4, data 0..64 KiB), add with lifetime / confirm constraints for RSA, ECDSA, Ed25519 and DSA keys with and without certificate, remove, remove-all, lock / unlock with arbitrary passphrase bytes, signers, add-hardware-certificate (new format through the client, legacy [31][blob] through Forward), list / read / attest slot with slot names and certificates up to ~8 KiB, wait with any code, raw forward of uninterpreted codes with bodies and replies up to 64 KiB, add / remove smartcard, extension; the served agent returns generated results or generated error texts (a quarter of the operations fail, half of those handing a result value back next to the error). Oracle: recorded arguments = sent arguments, caller result = scripted result byte-for-byte, served error => caller error (text equal where the protocol carries text), exactly one call reaches the served agent per operation; every signer returned by signers signs once and that reaches the served agent as a sign request for exactly the listed identity; key objects the served agent was handed earlier stay byte-identical when re-encoded after later operations. Excluded by construction (known findings): error text 'SUCCESS' for add-hardware-certificate / wait, empty error text for the slot listing. Non-trivial: >= 1 extended operation and >= 1 failing operation."
+const ruleSeq = "sequences of 1..10 operations through NewClientFromConn (socket pair) or NewClient(address) (unix-socket listener) <-> ServeAgent(recording agent): list, sign-with-flags (flags 0/2/4, data 0..64 KiB), add with lifetime / confirm constraints for RSA, ECDSA, Ed25519 and DSA keys with and without certificate, remove, remove-all, lock / unlock with arbitrary passphrase bytes, signers, add-hardware-certificate (new format through the client, legacy [31][blob] through Forward), list / read / attest slot with slot names and certificates up to ~8 KiB, wait with any code, raw forward of uninterpreted codes with bodies and replies up to 64 KiB, add / remove smartcard, extension; the served agent returns generated results or generated error texts (a quarter of the operations fail, half of those handing a result value back next to the error). Oracle: recorded arguments = sent arguments, caller result = scripted result byte-for-byte, served error => caller error (text equal where the protocol carries text), exactly one call reaches the served agent per operation; every signer returned by signers signs once and that reaches the served agent as a sign request for exactly the listed identity; key objects the served agent was handed earlier stay byte-identical when re-encoded after later operations. Excluded by construction (known findings): error text 'SUCCESS' for add-hardware-certificate / wait, empty error text for the slot listing. Non-trivial: >= 1 extended operation and >= 1 failing operation."
 
 func TestC13Client(t *testing.T) {
 	vh.Run(t, vh.Spec[SeqCase]{Property: "C13", Name: "TestC13Client", Rule: ruleSeq, Gen: genSeq, Exec: execSeq, Journal: true})
